@@ -42,10 +42,13 @@ func ruleInputImmutable(c *Ctx, rule string, fns []*ssa.Function) {
 
 func runC12(c *Ctx) {
 	P := c.P
-	c.Explanation = "Decides: (R-INPUT-IMMUTABLE) none of LCS/LCSFunc/LIS/LISFunc/LNDS/LNDSFunc/bisectRight/EditScript/editScriptFunc (nor their closures) can write through its input: every element store, copy destination, append base, clear, and every slice passed to a mutating callee (summaries computed from the callee bodies; frozen table for the standard library) has a provenance of allocations made inside the function. (R-LEAN-AGREE) in each of LISFunc and LNDSFunc the strictness of the fast-path comparison agrees with the lean of the binary search it falls back to: LNDS = (>=, right-leaning), LIS = (>, left-leaning); the lean of the in-repository search is read from its body. Each wrong pairing is wrong exactly on runs of equal elements. Does NOT decide that results are subsequences of maximum length."
+	c.Explanation = "Decides: (R-INPUT-IMMUTABLE) none of LCS/LCSFunc/LIS/LISFunc/LNDS/LNDSFunc/bisectRight/EditScript/editScriptFunc (nor their closures) can write through its input: every element store, copy destination, append base, clear, and every slice passed to a mutating callee (summaries computed from the callee bodies; frozen table for the standard library) has a provenance of allocations made inside the function. (R-LEAN-AGREE) in each of LISFunc and LNDSFunc the strictness of the fast-path comparison agrees with the lean of the binary search it falls back to: LNDS = (>=, right-leaning), LIS = (>, left-leaning); the lean of the in-repository search is read from its body. Each wrong pairing is wrong exactly on runs of equal elements. (R-CMP-SIGN) comparison results are tested by sign only; the strict variant takes no shortcut on slices.IsSorted*; (R-SIBLING-GUARD) guards before a comparison of an element of each input constrain both indices or neither. Does NOT decide that results are subsequences of maximum length."
 	c.rule("R-INPUT-IMMUTABLE", 10, "every write event in the subsequence functions goes through a value whose origin is Fresh")
 	c.rule("R-LEAN-AGREE", 4, "LNDSFunc = (>=, Right), LISFunc = (>, Left); LIS/LNDS delegate with cmp.Compare")
+	c.rule("R-CMP-SIGN", 3, "every test of a comparison function's result against a constant is a test of its sign only")
 	c.assume("user comparison callbacks do not modify the slices (outside the rule)")
+	ruleCmpSign(c, "R-CMP-SIGN", P.PkgFuncs("slice"))
+	ruleSiblingGuard(c, "slice")
 
 	names := []string{"LCS", "LCSFunc", "LIS", "LISFunc", "LNDS", "LNDSFunc", "bisectRight", "EditScript", "editScriptFunc"}
 	var fns []*ssa.Function
@@ -378,6 +381,32 @@ func runC12(c *Ctx) {
 		c.judge(s == tc.wantS && l == tc.wantL, "R-LEAN-AGREE", key, pos,
 			fmt.Sprintf("fast path %s, search %s leans %s (%s)", s, fnName(search), l, lwhy),
 			fmt.Sprintf("fast path is %s and the search (%s) leans %s (%s); a correct %s needs (%s, %s): wrong on runs of equal elements", s, fnName(search), l, lwhy, tc.name, tc.wantS, tc.wantL))
+	}
+	// a "the input is already sorted" shortcut is a statement about non-decreasing order: in the STRICT variant it
+	// returns runs of equal elements whole
+	if lis := P.Func("slice", "", "LISFunc"); lis != nil {
+		var short ssa.Instruction
+		for _, f := range buildCallScope(lis).fns {
+			allInstrs(f, func(in ssa.Instruction) {
+				call, ok := in.(*ssa.Call)
+				if !ok {
+					return
+				}
+				cal := call.Call.StaticCallee()
+				if cal == nil {
+					return
+				}
+				o := origin(cal)
+				if o.Pkg != nil && o.Pkg.Pkg.Path() == "slices" && (o.Name() == "IsSortedFunc" || o.Name() == "IsSorted") {
+					short = in
+				}
+			})
+		}
+		if short != nil {
+			c.bad("R-LEAN-AGREE", "slice.LISFunc:sortedness shortcut", short.Pos(), "the strictly-increasing variant takes a shortcut on slices.IsSorted*, which accepts equal neighbours: a sorted input with ties is returned whole")
+		} else {
+			c.ok("R-LEAN-AGREE", "slice.LISFunc:sortedness shortcut", lis.Pos(), "no non-strict sortedness shortcut in the strict variant")
+		}
 	}
 	// LIS -> LISFunc(cmp.Compare), LNDS -> LNDSFunc(cmp.Compare)
 	for _, pr := range [][2]string{{"LIS", "LISFunc"}, {"LNDS", "LNDSFunc"}} {
